@@ -21,7 +21,7 @@ FUNCTIONS = [('hio.core.http.serving', 'Server.service'), ('hio.core.http.servin
              ('hio.core.http.httping', 'parseLeader'), ('hio.core.http.httping', 'parseLine'), ('hio.core.http.httping', 'parseChunk'), ('hio.core.http.httping', 'parseRequestLine'),
              ('hio.core.http.httping', 'parseStatusLine'), ('hio.core.http.httping', 'Parsent.parseMessage'), ('hio.core.http.clienting', 'Client.service'),
              ('hio.core.http.clienting', 'Client.serviceResponse'), ('hio.core.http.clienting', 'Respondent.parseHead'), ('hio.core.http.clienting', 'Respondent.parseBody')]
-BOUNDS = {'quick': dict(raw=3, hole=2, budget_s=150, audit_max=25), 'thorough': dict(raw=4, hole=3, budget_s=1500, audit_max=20)}
+BOUNDS = {'quick': dict(raw=3, hole=2, budget_s=150, audit_max=25), 'thorough': dict(raw=4, raw_client=2, hole=2, budget_s=1500, audit_max=20)}
 OUTSIDE = ['holes longer than the bound / outside the per-position alphabet', 'bytes split over several reads (C13)', 'TLS', 'application (WSGI app) exceptions']
 STUBS = ['FakeNet sockets; hio.core.http.serving.sys.stderr, loggers and the Date header clock silenced/pinned']
 ASSUMPTIONS = ['the WSGI app is well behaved']
@@ -66,7 +66,7 @@ def partitions(tier):
             ps.append(dict(name='%s-%s' % (srv, t), side='server', srv=srv, template=t, n=n))
         ps.append(dict(name='%s-huge-line' % srv, side='server', srv=srv, template='huge', n=0))
     for t in RESP_TEMPLATES:
-        n = (b['raw'] - 1) if t == 'raw' else b['hole']      # a response needs >= 'HTTP/1.x NNN': short raw reads only exercise the status-line parser
+        n = b.get('raw_client', b['raw'] - 1) if t == 'raw' else b['hole']      # a response needs >= 'HTTP/1.x NNN': short raw reads only exercise the status-line parser
         ps.append(dict(name='client-%s' % t, side='client', template=t, n=n))
     return ps
 
